@@ -542,18 +542,31 @@ fn flips_case(seed: u64, idx: u64, thorough: bool, stats: &mut Counts, soft: &mu
         let digests: Vec<u64> = pr.states.iter().map(dump_digest).collect();
         let mut nflips = 0u64;
         for o in &offs {
-            let kinds: Vec<u8> = if exhaustive && thorough { vec![0, 1, 2, 3, 4] } else { vec![rng.below(5) as u8] };
+            let orig = data[*o as usize];
+            let mut kinds: Vec<u8> = if exhaustive && thorough { vec![0, 1, 2, 3, 4, 5] } else { vec![rng.below(6) as u8] };
+            // bytes that look like an enum (marker tags, value type, compression type) are additionally replaced by
+            // every other small value: one tag read as another tag is the damage a framing change is most likely to mishandle
+            let fname = field_at(&pr, *o);
+            if fname == "start.tag" || fname == "end.tag" || (1..=4).contains(&orig) {
+                kinds.extend(100u8..=106);
+            }
+            let mut tried: Vec<u8> = Vec::new();
             for kind in kinds {
-                let orig = data[*o as usize];
                 let newb = match kind {
                     0 => orig ^ 0x01,
                     1 => orig ^ 0x80,
                     2 => 0x00,
                     3 => 0xFF,
-                    _ => rng.below(256) as u8,
+                    4 => rng.below(256) as u8,
+                    5 => orig ^ (1u8 << rng.below(8)),
+                    k => k - 100,
                 };
-                if newb == orig {
+                if newb == orig || tried.contains(&newb) {
                     continue;
+                }
+                tried.push(newb);
+                if kind >= 100 {
+                    stats.inc("flips.enum_substitutions");
                 }
                 let mut d2 = data.clone();
                 d2[*o as usize] = newb;
